@@ -743,17 +743,19 @@ def has_empty_rec(t):
 
 def pick_axis(rng, t, allow_zero=False):
     """an axis for an at-axis operation: mostly legal (1..max depth-1, or negative counted from the leaves of
-    every branch), sometimes out of range (error half)"""
+    every branch), sometimes out of range (error half).  Axes that would reach into the characters of a string
+    (possible in records whose fields differ in depth) are avoided."""
     mn, mx = list_depth(t)
     lo = 0 if allow_zero else 1
+    strs = has_kind(t, 'str')
+    top = (mn if strs else mx) - 1          # deepest legal positive axis
     r = rng.random()
     neg_ok = mn - 1 >= (0 if allow_zero else 1) and not has_empty_rec(t)
+    fallback = lo if not strs else -mx - 4
     if r < 0.5 or (r < 0.88 and not neg_ok):
-        if mx - 1 >= lo:
-            return rng.randint(lo, mx - 1)
-        return lo if not has_kind(t, 'str') else -mx - 4
+        return rng.randint(lo, top) if top >= lo else fallback
     if r < 0.88:
         return -rng.randint(1, mn - 1 + (1 if allow_zero else 0))
-    if has_kind(t, 'str') or has_empty_rec(t):
-        return rng.randint(lo, mx - 1) if mx - 1 >= lo else (lo if has_empty_rec(t) and not has_kind(t, 'str') else -mx - 4)
+    if strs or has_empty_rec(t):
+        return rng.randint(lo, top) if top >= lo else fallback
     return rng.choice([mx, mx + 1, -mx - 1])
